@@ -130,3 +130,53 @@ def enabled (c : Cfg) (s : St) : List Lbl :=
 def terminal (s : St) : Prop := (∃ why, s.ph = .fin why) ∧ ∀ w ∈ s.ws, w = .stopped
 
 end Sedpack.Pool
+
+namespace Sedpack.Pool
+
+/-! ## Re-using the pool object
+
+`finish_and_reset` forgets both queues (`self._to_process = None`, `self._results = None`) and the
+next `imap_unordered` creates fresh queues and fresh `Collector` threads, while threads of earlier
+passes may still be draining *their* queues.  A pool object over its life time is therefore a list
+of independent passes: the current one, on which consumer and workers act, and earlier ones, on
+which only their own workers still act.  Pass `g` runs with configuration `cs g` (its own input
+and mapped function; the thread count is the pool's). -/
+structure Multi where
+  past : List St
+  cur : St
+deriving Repr
+
+inductive MLbl | cur (l : Lbl) | old (g : Nat) (l : Lbl) | newPass
+deriving DecidableEq, Repr
+
+def isWorker : Lbl → Bool
+  | .wGet _ => true | .wPut _ => true | _ => false
+
+def minit (cs : Nat → Cfg) : Multi := { past := [], cur := init (cs 0) }
+
+def mstep (cs : Nat → Cfg) (m : Multi) : MLbl → Option Multi
+  | .cur l => (step (cs m.past.length) m.cur l).map (fun s => { m with cur := s })
+  | .old g l =>
+    match m.past[g]? with
+    | some s => if isWorker l then (step (cs g) s l).map (fun s' => { m with past := m.past.set g s' }) else none
+    | none => none
+  | .newPass =>          -- `imap_unordered` asserts `_active_threads <= 0` and both queues forgotten
+    match m.cur.ph with
+    | .fin _ => some { past := m.past ++ [m.cur], cur := init (cs (m.past.length + 1)) }
+    | _ => none
+
+inductive MReach (cs : Nat → Cfg) : Multi → Prop
+  | init : MReach cs (minit cs)
+  | step {m m' l} : MReach cs m → mstep cs m l = some m' → MReach cs m'
+
+def maccepts (cs : Nat → Cfg) : Multi → List MLbl → Option Multi
+  | m, [] => some m
+  | m, l :: ls => (mstep cs m l).bind (fun m' => maccepts cs m' ls)
+
+def mfirstRefused (cs : Nat → Cfg) : Multi → List MLbl → Nat → Option Nat
+  | _, [], _ => none
+  | m, l :: ls, k => match mstep cs m l with
+    | none => some k
+    | some m' => mfirstRefused cs m' ls (k+1)
+
+end Sedpack.Pool
